@@ -4,6 +4,7 @@ The bounded stand-in (O4b in DESIGN) runs the REAL function against this oracle 
 directed inputs and seeded random moves; failures are attributed to the frozen known-finding regions or reported.
 """
 import itertools
+import os
 import random
 from fractions import Fraction as F
 
@@ -132,19 +133,11 @@ def inputs(seed, n_random, lattice):
         yield (steps, rate, accel, acc)
 
 
-def bounded(payload):
-    tier = payload.get('tier', 'quick')
-    seed = int(payload.get('seed', 0))
-    max_ticks = 4096 if tier == 'quick' else 60000
-    n_random = 20000 if tier == 'quick' else 400000
-    lattice = 16 if tier == 'quick' else 24
-    evals = 0
-    sigs = set()
-    unknown = []
-    kf_counts = {}
-    kf_examples = {}
-    for inp in inputs(seed, n_random, lattice):
-        r = run_one(inp, max_ticks)
+def _chunk(args):
+    items, max_ticks = args
+    evals, sigs, unknown, kf_counts, kf_examples = 0, set(), [], {}, {}
+    for inp in items:
+        r = run_one(tuple(inp), max_ticks)
         if r is None:
             continue
         evals += 1
@@ -156,9 +149,39 @@ def bounded(payload):
             kf_examples.setdefault(r['kf'], r)
         elif len(unknown) < 5:
             unknown.append(r)
+    return evals, sigs, unknown, kf_counts, kf_examples
+
+
+def bounded(payload):
+    import multiprocessing as mp
+    tier = payload.get('tier', 'quick')
+    seed = int(payload.get('seed', 0))
+    max_ticks = 4096 if tier == 'quick' else 60000
+    n_random = 20000 if tier == 'quick' else 400000
+    lattice = 16 if tier == 'quick' else 24
+    allin = list(inputs(seed, n_random, lattice))
+    jobs = min(16, os.cpu_count() or 4)
+    size = max(1, (len(allin) + jobs * 8 - 1) // (jobs * 8))
+    chunks = [(allin[k:k + size], max_ticks) for k in range(0, len(allin), size)]
+    with mp.get_context('fork').Pool(jobs) as pool:
+        parts = pool.map(_chunk, chunks)
+    evals = 0
+    sigs = set()
+    unknown = []
+    kf_counts = {}
+    kf_examples = {}
+    for e, sg, un, kc, ke in parts:
+        evals += e
+        sigs |= sg
+        unknown += un
+        for k, v in kc.items():
+            kf_counts[k] = kf_counts.get(k, 0) + v
+        for k, v in ke.items():
+            kf_examples.setdefault(k, v)
+    unknown = unknown[:5]
     return {'evaluations': evals, 'distinct': len(sigs), 'unknown': unknown, 'kf_counts': kf_counts,
             'kf_examples': {k: {'input': v['input'], 'observed': v['observed'], 'expected': v['expected']} for k, v in kf_examples.items()},
-            'bound': f'oracle <= {max_ticks} ticks; lattice k*M/16 |k|<={lattice}; |rate|,|accel|<=12 exhaustive; {n_random} seeded random moves (seed {seed})'}
+            'bound': f'oracle <= {max_ticks} ticks; lattice k*M/16 |k|<={lattice}; |rate|,|accel|<=12 exhaustive; {n_random} seeded random moves (seed {seed}); {jobs} processes'}
 
 
 WITNESS = {
